@@ -90,6 +90,12 @@ def body_reshape(S, spec):
             continue
         try:
             _check_target(S, tag, x, y, t, shape)
+            if not trig and not spec["a"].get("prefuse"):
+                # the conjugate (same sectors, opposite directions) reshaped the same way right after: must not inherit x's plan
+                xc = x.conj()
+                yc = xc.reshape(t)
+                content_preserved(S, tag + ":conj-sibling", xc, yc)
+                same_value(S, tag + ":conj-sibling:back", yc.reshape(shape), xc)
         except Violation as v:
             S.structural.append((v.name, v.detail))
         except zt.Abort:
